@@ -470,12 +470,17 @@ pub fn main(args: &[String]) -> i32 {
         }
     }
     let n_regress = regress.len();
+    let only_regress = a.get("only-regress").is_some();
     let mut regress = regress.into_iter();
     let mut i = 0u64;
     while i < max_runs && Instant::now() < deadline {
         let s = rng::hash3(seed, shard, i);
         i += 1;
-        let case = regress.next().unwrap_or_else(|| gen_case(s));
+        let next = regress.next();
+        if next.is_none() && only_regress {
+            break;
+        }
+        let case = next.unwrap_or_else(|| gen_case(s));
         runs += 1;
         let _ = crate::panics::take();
         let local = tokio::task::LocalSet::new();
